@@ -109,3 +109,4 @@ Proof.
   apply (reencode_exact env0 8 8 sid bs v); try assumption; try lia;
     [apply env0_wf_schema|apply env0_defaults_typed|apply env0_arrs_ok].
 Qed.
+
